@@ -311,10 +311,13 @@ def call_obligation(ctx, rep, world, pr, p, b, bi, t, info, n_site, r32_sinks):
         return
     if short in ("unwrap", "expect"):
         role = "%s#%d" % (short, seq)
-        if (p, short) in DOCUMENTED_PANICS:
-            rep.ok("unwrap", p, role, "excluded by the property: " + DOCUMENTED_PANICS[(p, short)], b.loc(bi))
-            return
         src = strip(args[0])
+        # the two documented panics: the *self-generated* public key turned out invalid
+        if short == "expect" and util.is_call(src) and src[1] in ("srp_internal_client::calculate_client_public_key", "server::SrpVerifier::with_specific_private_key", "srp_internal::calculate_server_public_key"):
+            own_key = util.is_call(strip(src[2][0]), "key::PrivateKey::randomized") or util.is_call(strip(src[2][1]) if len(src[2]) > 1 else ("x",), "key::PrivateKey::randomized") or (strip(src[2][0])[0] == "param" and p.startswith("client::SrpClientChallenge::")) or (len(src[2]) > 1 and strip(src[2][1])[0] == "param" and p.startswith("server::SrpVerifier::"))
+            if own_key:
+                rep.ok("unwrap", p, role, "excluded by the property: documented panic on an invalid self-generated public key", b.loc(bi))
+                return
         if util.is_call(src) and src[1] in util.MAC_NEW:
             rep.ok("unwrap", p, role, "justified: Hmac::new_from_slice accepts keys of any length (never Err)", b.loc(bi))
             return
